@@ -5,6 +5,7 @@ three keys (two sharing index-v5/aa/bb, the third sharing index-v5/aa) and two v
 files share content-v2/sha256/aa/bb; a and b may hold the same value (one content file). After every
 transition every key and every address is observed through every lookup entry point.
 """
+import os
 import time
 
 from vlib import ref, run, seqx, tables
@@ -66,6 +67,11 @@ def main(tier, seed=0):
         capped_any |= capped
         tag = "%s-depth%d" % (spec.flavour, spec.depth)
         total = merge(total, agg, tag)
+    try:
+        total = merge(total, rootforms_part(tier, seed), "cache-root-forms")
+    except Exception:
+        import traceback
+        merr_all.append(traceback.format_exc())
     return run.finish(PROP, tier, total, merr_all, time.time() - t0, level="model_checking",
                       rule="state = (canonical on-disk cache, model); alphabet = {write d1/d2 under a/b/c, remove, remove_hash(d1/d2), remove_fully, clear} x "
                            "{sync, async}; a,b share index-v5/aa/bb, c shares index-v5/aa, d1,d2 share content-v2/sha256/aa/bb; after every transition every key "
@@ -74,6 +80,88 @@ def main(tier, seed=0):
                       assumptions=["removing an absent address/entry may answer Ok or IoError but must not change the state",
                                    "remove_fully of an entry whose content is already gone fails and changes nothing (content unlink comes first)"],
                       seed=seed, capped=capped_any, jobs_done=len(runs), jobs_total=len(runs), exhaustive=not capped_any)
+
+
+def rootforms_part(tier, seed):
+    """Removals name things inside the cache directory, however that directory was named by the caller: the cache reached
+    through a symbolic link, as a relative path, and as '.'. For every removal form: what it names is gone, the rest is
+    intact, the directory the caller named is still the same directory (a symlink stays a symlink), and the cache stays
+    usable through the same name."""
+    from vlib import fsutil, wr
+    from vlib.run import V, classify
+    res = V.new()
+    ctx = run.Ctx(run.base_dir(), 900, tier, seed, 20.0)
+    try:
+        for flavour in (("sync", "astd") if tier == "quick" else ("sync", "astd", "tok")):
+            srv = ctx.srv(flavour, slot=5)   # own server: it changes its working directory
+            for side in (("s",) if flavour == "sync" else ("a", "s")):
+                suf = "_sync" if side == "s" else ""
+                for form in ("symlink", "relative", "dot", "symlink-trailing-slash"):
+                    for removal in ("clear", "remove_fully", "remove", "remove_hash"):
+                        parent = ctx.fresh("c09root-")
+                        real = os.path.join(parent, "real-cache")
+                        os.makedirs(real)
+                        os.symlink("real-cache", os.path.join(parent, "link"))
+                        arg, cwd = {"symlink": (os.path.join(parent, "link"), parent), "relative": ("real-cache", parent), "dot": (".", real),
+                                    "symlink-trailing-slash": (os.path.join(parent, "link") + "/", parent)}[form]
+                        srv.call({"op": "chdir", "dir": cwd})
+                        case = {"flavour": flavour, "side": side, "cache_named_as": form, "removal": removal}
+                        replay = {"engine": "seqx", "mode": "cache root forms", "case": case}
+                        sig = "rootform:%s:%s/%s" % (form, removal, side)
+                        res["evals"] += 1
+                        res["distinct"].add(V.h(flavour, side, form, removal))
+                        d1, d2 = ref.gen(6, 91), ref.gen(9, 92)
+                        w1 = srv.call({"op": "write" + suf, "cache": arg, "key": "k1", "data": {"gen": [6, 91]}})
+                        w2 = srv.call({"op": "write" + suf, "cache": arg, "key": "k2", "data": {"gen": [9, 92]}})
+                        if "ok" not in w1 or "ok" not in w2:
+                            V.violation(res, sig + ":setup-" + classify(w1 if "ok" not in w1 else w2), "writes through a cache named %r failed: %r %r" % (arg, w1, w2), replay)
+                            continue
+                        s1 = w1["ok"]
+                        if removal == "clear":
+                            r = srv.call({"op": "clear" + suf, "cache": arg})
+                            gone, kept = ["k1", "k2"], []
+                        elif removal == "remove_fully":
+                            r = srv.call({"op": "remove_opts" + suf, "cache": arg, "key": "k1", "fully": True})
+                            gone, kept = ["k1"], ["k2"]
+                        elif removal == "remove":
+                            r = srv.call({"op": "remove" + suf, "cache": arg, "key": "k1"})
+                            gone, kept = ["k1"], ["k2"]
+                        else:
+                            r = srv.call({"op": "remove_hash" + suf, "cache": arg, "sri": s1})
+                            gone, kept = [], ["k2"]
+                        res["transitions"] += 3
+                        V.outcome(res, "%s:%s" % (removal, classify(r)))
+                        if "ok" not in r:
+                            V.violation(res, sig + ":" + classify(r), "%s through a cache named %r failed: %r" % (removal, arg, r), replay)
+                        # judged through the REAL directory, by a sync lookup of the same build
+                        for k in gone:
+                            m = srv.call({"op": "metadata_sync", "cache": real, "key": k})
+                            if m.get("ok") is not None or "ok" not in m:
+                                V.violation(res, sig + ":still-there", "after %s the key %s is still found in the real cache directory: %r" % (removal, k, m), replay)
+                        for k in kept:
+                            rd = srv.call({"op": "read_sync", "cache": real, "key": k})
+                            if not ("ok" in rd and wr.data_matches(rd["ok"], d2)):
+                                V.violation(res, sig + ":bystander-lost", "after %s the other key reads %r" % (removal, rd), replay)
+                        if removal in ("clear", "remove_fully", "remove_hash") and os.path.exists(os.path.join(real, ref.content_rel(s1))):
+                            V.violation(res, sig + ":content-still-there", "after %s the content file is still in the real cache directory" % removal, replay)
+                        if removal == "clear":
+                            left = [x for x in os.listdir(real)] if os.path.isdir(real) else None
+                            if left:
+                                V.violation(res, sig + ":not-empty", "after clear the real cache directory still holds %r" % left, replay)
+                        if not os.path.islink(os.path.join(parent, "link")) or os.readlink(os.path.join(parent, "link")) != "real-cache" or not os.path.isdir(real):
+                            V.violation(res, sig + ":cache-directory-replaced", "the directory / symbolic link the caller named is no longer what it was", replay)
+                        # still usable through the same name, and it is still the same directory
+                        w3 = srv.call({"op": "write" + suf, "cache": arg, "key": "k3", "data": {"gen": [6, 91]}})
+                        rd = srv.call({"op": "read_sync", "cache": real, "key": "k3"})
+                        if "ok" not in w3 or not ("ok" in rd and wr.data_matches(rd["ok"], d1)):
+                            V.violation(res, sig + ":not-usable-afterwards", "a write through %r after %s: %r; read through the real path: %r" % (arg, removal, w3, rd), replay)
+                        srv.call({"op": "chdir", "dir": "/"})
+                        fsutil.wipe(parent)
+    finally:
+        ctx.close()
+    res["extra"] = {"cache_root_forms": ["symlink", "relative", "dot", "symlink-trailing-slash"]}
+    res["samples"] = [{"part": "cache root forms", "cases": res["evals"]}]
+    return res
 
 
 def merge(total, agg, tag):
